@@ -247,11 +247,11 @@ func (r *result) confirmations(chain string) {
 	k3, _ := crypto.ToECDSA(keccak([]byte("fxmc/unregistered-key")))
 
 	type object struct {
-		kind    string
-		cp      []byte
-		wrong   map[string][]byte // other digests
-		build   func(bridger, ext, sig string) sdk.Msg
-		stored  func(c sdk.Context, oracle sdk.AccAddress) bool
+		kind   string
+		cp     []byte
+		wrong  map[string][]byte // other digests
+		build  func(bridger, ext, sig string) sdk.Msg
+		stored func(c sdk.Context, oracle sdk.AccAddress) bool
 	}
 	osMut := *oset
 	osMut.Nonce++
@@ -271,96 +271,116 @@ func (r *result) confirmations(chain string) {
 		{"batch", scen.BatchCheckpoint(chain, gid, batch), map[string][]byte{"mutated-object": scen.BatchCheckpoint(chain, gid, &bMut), "other-gravity-id": scen.BatchCheckpoint(chain, "other", batch), "other-kind": scen.OracleSetCheckpoint(chain, gid, oset)},
 			func(b, e, s string) sdk.Msg {
 				return &cctypes.MsgConfirmBatch{ChainName: chain, Nonce: batch.BatchNonce, TokenContract: batch.TokenContract, BridgerAddress: b, ExternalAddress: e, Signature: s}
-			}, func(c sdk.Context, o sdk.AccAddress) bool { return k.GetBatchConfirm(c, batch.TokenContract, batch.BatchNonce, o) != nil }},
+			}, func(c sdk.Context, o sdk.AccAddress) bool {
+				return k.GetBatchConfirm(c, batch.TokenContract, batch.BatchNonce, o) != nil
+			}},
 		{"bridge-call", scen.BridgeCallCheckpoint(chain, gid, call), map[string][]byte{"mutated-object": scen.BridgeCallCheckpoint(chain, gid, &cMut), "other-gravity-id": scen.BridgeCallCheckpoint(chain, "other", call)},
 			func(b, e, s string) sdk.Msg {
 				return &cctypes.MsgBridgeCallConfirm{ChainName: chain, Nonce: call.Nonce, BridgerAddress: b, ExternalAddress: e, Signature: s}
 			}, func(c sdk.Context, o sdk.AccAddress) bool { return k.HasBridgeCallConfirm(c, call.Nonce, o) }},
 	}
 	keys := map[string]*ecdsa.PrivateKey{"K1": os[0].ExtKey, "K2": os[1].ExtKey, "K3-unregistered": k3}
-	for _, ob := range objs {
-		digests := map[string][]byte{"exact": ob.cp}
-		for n, d := range ob.wrong {
-			digests[n] = d
+	for _, env := range []string{"", "after a parameter update that was not committed"} {
+		if env != "" {
+			// a governance parameter update naming another gravity id runs on a branch that is thrown away (a failed
+			// proposal, a failed or simulated transaction): the stored object and the stored gravity id are untouched
+			d := world.Branch(ctx)
+			p := k.GetParams(d)
+			p.GravityId = "other"
+			if r0 := w.Deliver(d, &cctypes.MsgUpdateParams{ChainName: chain, Authority: world.GovAuthority(), Params: p}); !r0.OK() {
+				panic("c12: discarded parameter update refused: " + r0.String())
+			}
+			if k.GetParams(ctx).GravityId != gid {
+				panic("c12: the discarded branch leaked into its parent")
+			}
 		}
-		for kn, key := range keys {
-			for dn, digest := range digests {
-				for _, prefixChain := range []string{chain, otherChain} {
-					raw, _ := hex.DecodeString(scen.Sign(prefixChain, key, digest))
-					encs := map[string][]byte{"v=0/1": raw, "v=27/28": append(append([]byte{}, raw[:64]...), raw[64]+27), "malleated-s": malleate(raw), "64-bytes": raw[:64], "66-bytes": append(append([]byte{}, raw...), 0), "empty": {},
-						// recovery bytes the external contract's ecrecover rejects (it accepts 27 / 28 only): such a signature is
-						// not usable there, so a confirmation carrying it must not be accepted
-						"v=29/30": append(append([]byte{}, raw[:64]...), raw[64]+29), "v=35/36": append(append([]byte{}, raw[:64]...), raw[64]+35), "v=37/38": append(append([]byte{}, raw[:64]...), raw[64]+37),
-						"v=147/148": append(append([]byte{}, raw[:64]...), raw[64]+147), "v=2/3": append(append([]byte{}, raw[:64]...), raw[64]+2)}
-					for en, sig := range encs {
-						for bn, bridger := range map[string]string{"B1": os[0].Bridger.Bech(), "B2": os[1].Bridger.Bech()} {
-							for xn, extAddr := range map[string]string{"K1-address": os[0].ExtAddr, "K2-address": os[1].ExtAddr} {
-								for _, wrap := range []string{"direct", "wrapped-by-same-bridger", "wrapped-by-mallory"} {
-									if wrap != "direct" && (en != "v=0/1" || dn != "exact" || prefixChain != chain) {
-										continue
-									}
-									c := world.Branch(ctx)
-									inner := ob.build(bridger, extAddr, hex.EncodeToString(sig))
-									var msg sdk.Msg = inner
-									switch wrap {
-									case "wrapped-by-same-bridger":
-										msg = scen.WrapConfirm(chain, bridger, inner.(cctypes.Confirm))
-									case "wrapped-by-mallory":
-										msg = scen.WrapConfirm(chain, w.A("mallory").Bech(), inner.(cctypes.Confirm))
-									}
-									name := fmt.Sprintf("%s %s: signed by %s over %s (prefix %s, %s), bridger %s, external %s, %s", chain, ob.kind, kn, dn, prefixChain, en, bn, xn, wrap)
-									// the confirm is attributed to the oracle that owns the named external address
-									owner := os[0]
-									if xn == "K2-address" {
-										owner = os[1]
-									}
-									validSig := dn == "exact" && prefixChain == chain && (en == "v=0/1" || en == "v=27/28" || en == "malleated-s") &&
-										((kn == "K1" && xn == "K1-address") || (kn == "K2" && xn == "K2-address"))
-									rightBridger := (xn == "K1-address" && bn == "B1") || (xn == "K2-address" && bn == "B2")
-									want := validSig && rightBridger && wrap != "wrapped-by-mallory"
-									r1 := w.Deliver(c, msg)
-									r.res.Transitions++
-									r.res.Extra["evaluations"]++
-									got := ob.stored(c, owner.Acct.Acc())
-									r.res.Outcomes[fmt.Sprintf("confirm/%s/stored=%v", ob.kind, got)]++
-									if got != r1.OK() {
-										r.viol("C12/confirm-verdict-and-store-disagree/"+ob.kind, "stored-iff-accepted", fmt.Sprintf("%s: result %s, stored=%v", name, r1, got), name)
-									}
-									if got && !want {
-										why := "signature-does-not-verify"
-										switch {
-										case validSig && !rightBridger:
-											why = "submitted-by-foreign-bridger"
-										case validSig && rightBridger:
-											why = "transaction-signed-by-another-account"
-										case dn != "exact":
-											why = "signature-over-" + dn
-										case prefixChain != chain:
-											why = "signature-for-other-chain-kind"
+		for _, ob := range objs {
+			digests := map[string][]byte{"exact": ob.cp}
+			for n, d := range ob.wrong {
+				digests[n] = d
+			}
+			for kn, key := range keys {
+				for dn, digest := range digests {
+					for _, prefixChain := range []string{chain, otherChain} {
+						raw, _ := hex.DecodeString(scen.Sign(prefixChain, key, digest))
+						encs := map[string][]byte{"v=0/1": raw, "v=27/28": append(append([]byte{}, raw[:64]...), raw[64]+27), "malleated-s": malleate(raw), "64-bytes": raw[:64], "66-bytes": append(append([]byte{}, raw...), 0), "empty": {},
+							// recovery bytes the external contract's ecrecover rejects (it accepts 27 / 28 only): such a signature is
+							// not usable there, so a confirmation carrying it must not be accepted
+							"v=29/30": append(append([]byte{}, raw[:64]...), raw[64]+29), "v=35/36": append(append([]byte{}, raw[:64]...), raw[64]+35), "v=37/38": append(append([]byte{}, raw[:64]...), raw[64]+37),
+							"v=147/148": append(append([]byte{}, raw[:64]...), raw[64]+147), "v=2/3": append(append([]byte{}, raw[:64]...), raw[64]+2)}
+						for en, sig := range encs {
+							for bn, bridger := range map[string]string{"B1": os[0].Bridger.Bech(), "B2": os[1].Bridger.Bech()} {
+								for xn, extAddr := range map[string]string{"K1-address": os[0].ExtAddr, "K2-address": os[1].ExtAddr} {
+									for _, wrap := range []string{"direct", "wrapped-by-same-bridger", "wrapped-by-mallory"} {
+										if wrap != "direct" && (en != "v=0/1" || dn != "exact" || prefixChain != chain) {
+											continue
 										}
-										r.viol(fmt.Sprintf("C12/confirmation-stored-although-%s/%s", why, ob.kind), "stored-only-with-valid-signature-by-own-bridger", name, name)
-									}
-									if !got && want {
-										r.viol(fmt.Sprintf("C12/valid-confirmation-refused/%s/%s", ob.kind, en), "valid-confirmation-accepted", name+": "+r1.String(), name)
-									}
-									if got {
-										// at most one confirmation per oracle and object: the same confirm again must be refused
-										r2 := w.Deliver(c, msg)
+										c := world.Branch(ctx)
+										inner := ob.build(bridger, extAddr, hex.EncodeToString(sig))
+										var msg sdk.Msg = inner
+										switch wrap {
+										case "wrapped-by-same-bridger":
+											msg = scen.WrapConfirm(chain, bridger, inner.(cctypes.Confirm))
+										case "wrapped-by-mallory":
+											msg = scen.WrapConfirm(chain, w.A("mallory").Bech(), inner.(cctypes.Confirm))
+										}
+										name := fmt.Sprintf("%s %s: signed by %s over %s (prefix %s, %s), bridger %s, external %s, %s", chain, ob.kind, kn, dn, prefixChain, en, bn, xn, wrap)
+										if env != "" {
+											name += ", " + env
+										}
+										// the confirm is attributed to the oracle that owns the named external address
+										owner := os[0]
+										if xn == "K2-address" {
+											owner = os[1]
+										}
+										validSig := dn == "exact" && prefixChain == chain && (en == "v=0/1" || en == "v=27/28" || en == "malleated-s") &&
+											((kn == "K1" && xn == "K1-address") || (kn == "K2" && xn == "K2-address"))
+										rightBridger := (xn == "K1-address" && bn == "B1") || (xn == "K2-address" && bn == "B2")
+										want := validSig && rightBridger && wrap != "wrapped-by-mallory"
+										r1 := w.Deliver(c, msg)
 										r.res.Transitions++
-										if r2.OK() {
-											r.viol("C12/duplicate-confirmation-accepted/"+ob.kind, "one-confirmation-per-oracle-and-object", name+" (repeat)", name)
+										r.res.Extra["evaluations"]++
+										got := ob.stored(c, owner.Acct.Acc())
+										r.res.Outcomes[fmt.Sprintf("confirm/%s/stored=%v", ob.kind, got)]++
+										if got != r1.OK() {
+											r.viol("C12/confirm-verdict-and-store-disagree/"+ob.kind, "stored-iff-accepted", fmt.Sprintf("%s: result %s, stored=%v", name, r1, got), name)
 										}
-										if en == "v=0/1" {
-											// ... also in its other encodings
-											alt := ob.build(bridger, extAddr, hex.EncodeToString(encs["malleated-s"]))
-											if r3 := w.Deliver(c, alt); r3.OK() {
-												r.viol("C12/duplicate-confirmation-accepted/"+ob.kind, "one-confirmation-per-oracle-and-object", name+" (repeat with malleated signature)", name)
+										if got && !want {
+											why := "signature-does-not-verify"
+											switch {
+											case validSig && !rightBridger:
+												why = "submitted-by-foreign-bridger"
+											case validSig && rightBridger:
+												why = "transaction-signed-by-another-account"
+											case dn != "exact":
+												why = "signature-over-" + dn
+											case prefixChain != chain:
+												why = "signature-for-other-chain-kind"
 											}
+											r.viol(fmt.Sprintf("C12/confirmation-stored-although-%s/%s", why, ob.kind), "stored-only-with-valid-signature-by-own-bridger", name, name)
 										}
-										r.res.Counters["confirmations-stored"]++
-									}
-									if len(r.res.Samples) < 6 && got {
-										r.res.Samples = append(r.res.Samples, []string{name, r1.String()})
+										if !got && want {
+											r.viol(fmt.Sprintf("C12/valid-confirmation-refused/%s/%s", ob.kind, en), "valid-confirmation-accepted", name+": "+r1.String(), name)
+										}
+										if got {
+											// at most one confirmation per oracle and object: the same confirm again must be refused
+											r2 := w.Deliver(c, msg)
+											r.res.Transitions++
+											if r2.OK() {
+												r.viol("C12/duplicate-confirmation-accepted/"+ob.kind, "one-confirmation-per-oracle-and-object", name+" (repeat)", name)
+											}
+											if en == "v=0/1" {
+												// ... also in its other encodings
+												alt := ob.build(bridger, extAddr, hex.EncodeToString(encs["malleated-s"]))
+												if r3 := w.Deliver(c, alt); r3.OK() {
+													r.viol("C12/duplicate-confirmation-accepted/"+ob.kind, "one-confirmation-per-oracle-and-object", name+" (repeat with malleated signature)", name)
+												}
+											}
+											r.res.Counters["confirmations-stored"]++
+										}
+										if len(r.res.Samples) < 6 && got {
+											r.res.Samples = append(r.res.Samples, []string{name, r1.String()})
+										}
 									}
 								}
 							}
@@ -394,9 +414,9 @@ func run(thorough bool) func(shard, shards int, deadline time.Time) *explore.Res
 
 func init() {
 	registry.Register(&registry.Check{
-		ID:    "C12",
-		Level: "model_checking",
-		Rule:  "checkpoint half: oracle sets (0-3 members), batches (0-3 transfers) and bridge calls (0-2 tokens, data/memo of 0, 1, 32, 33 bytes) with every uint64 field from {0, 1, 2^32-1, 2^63-1, 2^63, 2^64-1} and three gravity ids, for the eth and the tron encoding; fxcore's checkpoint must equal byte for byte the digest of an independent abi.encode implementation written from the argument lists in FxBridgeLogic.sol, and distinct objects must have distinct checkpoints. Confirmation half (real keeper, eth and tron): every candidate (signing key in {oracle 1, oracle 2, unregistered}) x (digest in {exact, mutated object, other gravity id, other kind}) x (chain prefix) x (encoding v=0/1, v=27/28, malleated s, 64, 66, 0 bytes) x (bridger) x (external address) x (direct, wrapped by the same bridger, wrapped by a third account) x (first, repeat) for oracle-set, batch and bridge-call confirms; stored iff the signature verifies under the named oracle's key over the exact checkpoint, the bridger is that oracle's, the transaction signer is that bridger, and no confirm of that oracle exists. states = distinct checkpoints, transitions = confirm messages delivered",
+		ID:          "C12",
+		Level:       "model_checking",
+		Rule:        "checkpoint half: oracle sets (0-3 members), batches (0-3 transfers) and bridge calls (0-2 tokens, data/memo of 0, 1, 32, 33 bytes) with every uint64 field from {0, 1, 2^32-1, 2^63-1, 2^63, 2^64-1} and three gravity ids, for the eth and the tron encoding; fxcore's checkpoint must equal byte for byte the digest of an independent abi.encode implementation written from the argument lists in FxBridgeLogic.sol, and distinct objects must have distinct checkpoints. Confirmation half (real keeper, eth and tron): every candidate (signing key in {oracle 1, oracle 2, unregistered}) x (digest in {exact, mutated object, other gravity id, other kind}) x (chain prefix) x (encoding v=0/1, v=27/28, malleated s, 64, 66, 0 bytes) x (bridger) x (external address) x (direct, wrapped by the same bridger, wrapped by a third account) x (first, repeat) for oracle-set, batch and bridge-call confirms; stored iff the signature verifies under the named oracle's key over the exact checkpoint, the bridger is that oracle's, the transaction signer is that bridger, and no confirm of that oracle exists. states = distinct checkpoints, transitions = confirm messages delivered",
 		Assumptions: []string{"signature recovery itself (secp256k1) is trusted", "the reference encoder covers static words, dynamic arrays and bytes as used by the three abi.encode calls"},
 		Jobs: func(tier string) []registry.Job {
 			return []registry.Job{{Name: "checkpoints+confirmations", Custom: run(tier == "thorough"), Shards: 2}}
